@@ -461,10 +461,16 @@ func runC15(c c15Case, o *vfutil.Obs) *vfutil.Failure {
 			select {
 			case callErr = <-done:
 			case <-time.After(60 * time.Millisecond):
-				// the subscription is running (it was accepted)
+				// the subscription is running (it was accepted), or the server is
+				// slow: the answer to the cancelled call tells which (a refusal
+				// names the missing authorisation, an accepted subscription ends
+				// with the context)
 				scancel()
 				select {
-				case <-done:
+				case e := <-done:
+					if e != nil && strings.Contains(e.Error(), "not authorized") {
+						callErr = e
+					}
 				case <-time.After(20 * time.Second):
 					return vfutil.Failf("harness/subscribe-stuck", "%s", desc)
 				}
